@@ -4,6 +4,7 @@ import itertools
 import re
 
 from core import fseq, fseqs, fbool, pseq, guarded
+import used
 
 PROP = "C14"
 RULE = ("exhaustive: every word of the generator's language up to length N (decode, quadrant of every index, "
@@ -92,7 +93,84 @@ def _pcont(w, k, filt):
     return "".join(res)
 
 
+# ----------------------------------------------------------------------------- call histories
+def _listing(make, fmt):
+    """a lazily produced listing: one iterator is created, advanced by one item and abandoned; then the listing is
+    produced completely while another iterator of the same call is only partially consumed; the pieces of that
+    iterator must give the same listing"""
+    used.sip(make)
+    out, err = _collect(make())
+    r = fmt(out) + ("!" + err if err else "")
+    if err is None:
+        g = make()
+        head = list(itertools.islice(g, 1))
+        mid, err2 = _collect(make())
+        tail, err3 = _collect(g)
+        r2 = fmt(head + tail) + ("!" + err3 if err3 else "")
+        if err2 is not None or mid != out:
+            return used.unstable(r, fmt(mid) + ("!" + err2 if err2 else ""))
+        if r2 != r:
+            return used.unstable(r, r2)
+    return r
+
+
+def _neighbours(op, a):
+    """the function under test is first called with DIFFERENT nearby arguments (results and exceptions discarded);
+    for the generators one iterator is created, advanced and abandoned"""
+    q = used.quiet
+    if op in ("pw_len", "pw_set", "pw_sset", "pw_w2ptab", "pw_p2wtab", "pw_p2swtab"):
+        n = int(a[0])
+        if not 0 <= n <= 7:
+            return
+        used.sip(lambda: PW.pinwords_of_length(n))
+        used.sip(lambda: PW.pinwords_of_length(n + 1), 3)
+        used.sip(lambda: PW.strict_pinwords_of_length(n), 2)
+        used.sip(lambda: PW.pinwords_of_length(max(n - 1, 0)), 2)
+        if op.endswith("tab") and n <= 5:
+            for m in (n - 1, n + 1 if n < 4 else n - 2):
+                if m >= 0:
+                    q({"pw_w2ptab": PW.pinword_to_perm_mapping, "pw_p2wtab": PW.perm_to_pinword_mapping,
+                       "pw_p2swtab": PW.perm_to_strict_pinword_mapping}[op], m)
+            q(lambda: PW.pinwords_for_basis((Perm((0, 1)), Perm((1, 0, 2)))))
+        return
+    if op in ("pw_pcont", "pw_pcontnt", "pw_tblhist"):
+        return
+    w = W(a[0])
+    f = {"pw_w2p": PW.pinword_to_perm, "pw_strict": PW.is_strict_pinword, "pw_factor": PW.factor_pinword,
+         "pw_sp2m": PW.sp_to_m, "pw_m2sp": PW.m_to_sp}.get(op)
+    if f is not None:
+        for v in (w[:-1], w[1:], w + "U", w[::-1]):
+            if v != w:
+                q(f, v)
+        return
+    if op == "pw_quad":
+        q(PW.quadrant, w, int(a[1]) + 1)
+        q(PW.quadrant, w, 0)
+        q(PW.quadrant, w[::-1], int(a[1]))
+        return
+    if op in ("pw_occsp", "pw_occ", "pw_contsp", "pw_cont", "pw_contnt"):
+        u = W(a[1])
+        g = {"pw_occsp": lambda x, y: list(itertools.islice(PW.pinword_occurrences_sp(x, y), 2)),
+             "pw_occ": lambda x, y: list(itertools.islice(PW.pinword_occurrences(x, y), 2)),
+             "pw_contsp": PW.pinword_contains_sp, "pw_cont": PW.pinword_contains,
+             "pw_contnt": PW.pinword_contains}[op]
+        for x, y in ((w, u[:-1]), (w[1:], u), (u, w), (w, w)):
+            q(g, x, y)
+
+
 def impl(op, a):
+    if op == "pw_tblhist" or (op in ("pw_pcont", "pw_pcontnt") and not used.sel(op, a, 16)):
+        return _impl(op, a)
+    try:
+        _neighbours(op, a)
+    except Exception:  # pylint: disable=broad-except
+        pass
+    r1 = _impl(op, a)
+    r2 = _impl(op, a)
+    return r1 if r1 == r2 else used.unstable(r1, r2)
+
+
+def _impl(op, a):
     if op == "pw_w2p":
         return guarded(lambda: fseq(PW.pinword_to_perm(W(a[0]))))
     if op == "pw_len":
@@ -126,11 +204,9 @@ def impl(op, a):
     if op == "pw_quad":
         return guarded(lambda: PW.quadrant(W(a[0]), int(a[1])))
     if op == "pw_occsp":
-        out, err = _collect(PW.pinword_occurrences_sp(W(a[0]), W(a[1]), int(a[2])))
-        return fseq(out) + ("!" + err if err else "")
+        return _listing(lambda: PW.pinword_occurrences_sp(W(a[0]), W(a[1]), int(a[2])), fseq)
     if op == "pw_occ":
-        out, err = _collect(PW.pinword_occurrences(W(a[0]), W(a[1])))
-        return fseqs(out) + ("!" + err if err else "")
+        return _listing(lambda: PW.pinword_occurrences(W(a[0]), W(a[1])), fseqs)
     if op == "pw_contsp":
         return guarded(lambda: fbool(PW.pinword_contains_sp(W(a[0]), W(a[1]))))
     if op == "pw_cont":
